@@ -561,7 +561,7 @@ package graphql
 //@ func DefaultErrorPresenter [C01]
 //@   ensures err == nil ==> res0 == nil
 //@   ensures err != nil ==> res0 != nil || calls(As) == 1
-//@ func HasFieldError [C01]
+//@ func HasFieldError [C01,C06]
 //@   requires rctx != nil
 //@   ghost found = false
 //@   at `equalPath(err.Path, path)` ghost found = found || callres0
